@@ -598,6 +598,59 @@ fn bds50(c: &mut Ctx) {
 /// BDS 5,0: the fields are cross-checked by the decoder (TAS against ground speed, turn rate against roll). Every
 /// combination inside the documented acceptance region (TAS in [80, 500], |GS - TAS| <= 200, GS <= 600; roll and
 /// track rate of the same sign, |roll| <= 50) must be labelled and decode to the encoded values.
+/// BDS 5,0 registers drawn at random from the whole acceptance region (every field varying at once), under header
+/// altitudes from 25 ft to 50 000 ft and every flight status: whatever else the payload may look like (it often reads as
+/// a BDS 6,0 register too), a genuine BDS 5,0 register must be labelled and show its five values.
+fn bds50_random(c: &mut Ctx, a: &Args, rng: &mut Rng) {
+    for i in 0..a.budget(400_000, 40_000_000) {
+        let sign = rng.below(2) as u8;
+        let rv = rng.below(285) as u16; // |roll| <= 50 deg
+        let tv = match rng.below(4) {
+            0 => rng.below(40) as u16,
+            1 => rng.below(120) as u16,
+            _ => rng.below(511) as u16,
+        };
+        let (rc, tc) = if sign == 1 { ((512 - rv.max(1)) & 0x1ff, (512 - tv.max(1)) & 0x1ff) } else { (rv, tv) };
+        if tc == 511 {
+            continue;
+        }
+        let g = rng.below(301) as u16;
+        let lo = (g as i32 - 100).max(40);
+        let hi = (g as i32 + 100).min(250);
+        if lo > hi {
+            continue;
+        }
+        let t = rng.range(lo as i64, hi as i64) as u16;
+        let (tsign, tcode) = (rng.below(2) as u8, rng.below(1024) as u16);
+        let x = Bds50 { roll: Some((sign, rc)), track: Some((tsign, tcode)), gs: Some(g), rate: Some((sign, tc)), tas: Some(t) };
+        let mb = frames::mb_bds50(x);
+        let f = if i % 4 == 3 {
+            frames::df21(rng.below(8) as u8, 0, 0, (rng.next() & 0x1fbf) as u16, &mb, ADDR)
+        } else {
+            frames::df20(rng.below(8) as u8, 0, 0, frames::ac13_from_n(rng.range(41, 2047) as u16), &mb, ADDR)
+        };
+        if let Some(v) = decode(c, &f, "bds50") {
+            let reg = &v["bds50"];
+            if reg.is_null() {
+                c.r.violation("C03:bds50:not-labelled:random-register", format!("a BDS 5,0 register inside the documented acceptance region (roll code {rc}, track {tsign}/{tcode}, GS {} kt, rate code {tc}, TAS {} kt) is not labelled bds50: {}", 2 * g, 2 * t, hexs(&f)), json!({"frame": hexs(&f), "field": "bds50"}));
+            } else {
+                let mut tr = sgn(tsign, tcode, 10) * 90.0 / 512.0;
+                if tr < 0.0 {
+                    tr += 360.0;
+                }
+                expect_num(c, &f, "random:groundspeed:BDS50", &reg["groundspeed"], 2.0 * g as f64, 0.0, g as i64);
+                expect_num(c, &f, "random:TAS:BDS50", &reg["TAS"], 2.0 * t as f64, 0.0, t as i64);
+                expect_num(c, &f, "random:track:BDS50", &reg["track"], tr, 1e-9, tcode as i64);
+                expect_num(c, &f, "random:roll:BDS50", &reg["roll"], sgn(sign, rc, 9) * 45.0 / 256.0, 1e-9, rc as i64);
+                expect_num(c, &f, "random:track_rate:BDS50", &reg["track_rate"], sgn(sign, tc, 9) * 8.0 / 256.0, 1e-9, tc as i64);
+                if !v["bds60"].is_null() {
+                    c.r.class("bds50-random:also-reads-as-bds60");
+                }
+            }
+        }
+    }
+}
+
 fn bds50_pairs(c: &mut Ctx) {
     let base = Bds50 { roll: Some((0, 28)), track: Some((0, 512)), gs: Some(200), rate: Some((0, 32)), tas: Some(210) };
     let step = if c.thorough { 1usize } else { 7 };
@@ -906,7 +959,7 @@ fn positioned_one(c: &mut Ctx, frames: &[Vec<u8>], stamps: &[f64], reference: Op
 }
 
 pub fn run(a: &Args, r: &mut Report) {
-    r.rule = "per field: every code of the field (or the stated stratified sample in quick) is encoded by the independent standards-based encoder, with plausible companions for Comm-B registers, decoded by the real Message::try_from and read back from serde_json::to_value; compared with the physical value within one quantisation step (exactly, for integer-valued fields). the header fields in front of the judged field (flight status, downlink request, utility message; vertical status, sensitivity level, reply information) take all their values; before one frame in four the decoder is offered a truncated, empty or over-long input; a DF20 payload that was labelled BDS 0,5 under a matching header comes back under other headers (same payload, up to 7 times) and is judged each time; in addition histories of 2-7 position reports of one aircraft go through decode_positions and every field of every record (the position set aside) must still be the one decoded from the record's own frame. distinct_nontrivial = distinct (field, code) pairs that round-tripped".into();
+    r.rule = "per field: every code of the field (or the stated stratified sample in quick) is encoded by the independent standards-based encoder, with plausible companions for Comm-B registers, decoded by the real Message::try_from and read back from serde_json::to_value; compared with the physical value within one quantisation step (exactly, for integer-valued fields). the header fields in front of the judged field (flight status, downlink request, utility message; vertical status, sensitivity level, reply information) take all their values; before one frame in four the decoder is offered a truncated, empty or over-long input; BDS 5,0 registers drawn at random from the whole acceptance region under header altitudes 25-50 000 ft must be labelled and show their values; a DF20 payload that was labelled BDS 0,5 under a matching header comes back under other headers (same payload, up to 7 times) and is judged each time; in addition histories of 2-7 position reports of one aircraft go through decode_positions and every field of every record (the position set aside) must still be the one decoded from the record's own frame. distinct_nontrivial = distinct (field, code) pairs that round-tripped".into();
     r.assumptions.push("sentinel codes (0 = no information, 127 in the GNSS/baro difference, movement 0 / 125..127) are not judged".into());
     r.assumptions.push("Comm-B registers are judged inside the decoder's documented plausibility envelope only (roll <= 50 deg, GS <= 600 kt, TAS in [80,500], |GS-TAS| <= 200, IAS 1..500, Mach <= 1, |vrate| <= 6000 ft/min, consistent roll/turn-rate signs, IAS/Mach consistency)".into());
     r.assumptions.push("call signs: the decoder strips spaces; undefined 6-bit codes must give '#'".into());
@@ -956,11 +1009,12 @@ pub fn run(a: &Args, r: &mut Report) {
     bds40(&mut c);
     bds50(&mut c);
     bds50_pairs(&mut c);
+    bds50_random(&mut c, a, &mut rng);
     bds60(&mut c);
     bds60_pairs(&mut c);
     bds05_in_df20(&mut c, a, &mut rng);
     c.r.sample(json!({"field": "groundspeed/track (BDS 0,9 subtype 1)", "frame": hexs(&frames::df17(5, AA, &frames::me_velocity_gs(VelCommon { subtype: 1, vr: 1, diff: 1, ..Default::default() }, 1, 10, 0, 160))), "encoded": {"ew": -9, "ns": 159}}));
     c.r.sample(json!({"field": "selected_mcp (BDS 4,0 in DF20)", "frame": hexs(&frames::df20(0, 0, 0, frames::ac13_from_n(1440), &frames::mb_bds40(Bds40 { mcp: Some(2250), ..Default::default() }), ADDR)), "encoded_ft": 36000}));
-    let mand = ["ok:aa:DF17", "ok:aa:DF18", "ok:aa:DF11", "ok:callsign:BDS08", "ok:callsign:BDS20/DF20", "ok:callsign:BDS20/DF21", "ok:altitude:BDS05", "ok:altitude:DF4", "ok:altitude:DF20", "ok:squawk:DF5", "ok:squawk:DF21", "ok:squawk:BDS61", "ok:groundspeed:BDS09", "ok:track:BDS09", "ok:heading:BDS09:st3", "ok:IAS:BDS09:st3", "ok:TAS:BDS09:st3", "ok:vertical_rate:BDS09", "ok:geo_minus_baro:BDS09", "ok:movement:BDS06", "ok:track:BDS06", "ok:selected_altitude:BDS62", "ok:barometric_setting:BDS62", "ok:selected_heading:BDS62", "ok:selected_mcp:BDS40", "ok:barometric_setting:BDS40", "ok:roll:BDS50", "ok:track:BDS50", "ok:groundspeed:BDS50", "ok:TAS:BDS50", "ok:track_rate:BDS50", "ok:heading:BDS60", "ok:IAS:BDS60", "ok:Mach:BDS60", "ok:vrate_barometric:BDS60", "ok:vrate_inertial:BDS60", "ok:bds05-label(altitudes equal)", "ok:bds05-not-labelled", "ok:bds05-not-labelled:payload-labelled-before", "positioned:fields-unchanged:with-decoded-position"];
+    let mand = ["ok:aa:DF17", "ok:aa:DF18", "ok:aa:DF11", "ok:callsign:BDS08", "ok:callsign:BDS20/DF20", "ok:callsign:BDS20/DF21", "ok:altitude:BDS05", "ok:altitude:DF4", "ok:altitude:DF20", "ok:squawk:DF5", "ok:squawk:DF21", "ok:squawk:BDS61", "ok:groundspeed:BDS09", "ok:track:BDS09", "ok:heading:BDS09:st3", "ok:IAS:BDS09:st3", "ok:TAS:BDS09:st3", "ok:vertical_rate:BDS09", "ok:geo_minus_baro:BDS09", "ok:movement:BDS06", "ok:track:BDS06", "ok:selected_altitude:BDS62", "ok:barometric_setting:BDS62", "ok:selected_heading:BDS62", "ok:selected_mcp:BDS40", "ok:barometric_setting:BDS40", "ok:roll:BDS50", "ok:track:BDS50", "ok:groundspeed:BDS50", "ok:TAS:BDS50", "ok:track_rate:BDS50", "ok:heading:BDS60", "ok:IAS:BDS60", "ok:Mach:BDS60", "ok:vrate_barometric:BDS60", "ok:vrate_inertial:BDS60", "ok:bds05-label(altitudes equal)", "ok:bds05-not-labelled", "ok:bds05-not-labelled:payload-labelled-before", "bds50-random:also-reads-as-bds60", "ok:random:TAS:BDS50", "positioned:fields-unchanged:with-decoded-position"];
     c.r.extra.insert("mandatory".into(), json!(mand.to_vec()));
 }
